@@ -179,6 +179,12 @@ func (p *parser) alias() ast.Expression {
 	// log the errors that occured while parsing
 	apply(p.errorHandler, errs)
 
+	// a generic struct that could not be instantiated (the error was reported above) cannot be turned into a literal
+	if structAlias, ok := mostFitting.alias.(*ast.StructAlias); ok && ast.IsGeneric(structAlias.Struct) && structTypeInstantiation == nil {
+		p.cur = start
+		return nil
+	}
+
 	return callOrLiteralFromAlias(mostFitting.alias, args, funcInstantiation, structTypeInstantiation)
 }
 
